@@ -17,6 +17,7 @@ import (
 	"sync"
 	"sync/atomic"
 	"time"
+	"unicode/utf8"
 
 	secp256k1 "gitlab.com/yawning/secp256k1-voi"
 	"gitlab.com/yawning/secp256k1-voi/secec"
@@ -174,6 +175,13 @@ func coldExec(spec string) []byte {
 			panic(err)
 		}
 		out = bo(k.Verify(arg(2), arg(3)))
+	case "prehash":
+		h, err := bitcoin.PreHashSchnorrMessage(string(arg(1)), arg(2))
+		if err != nil {
+			out = []byte("error")
+		} else {
+			out = h
+		}
 	case "ecdh":
 		k, err := secec.NewPrivateKey(arg(1))
 		if err != nil {
@@ -341,6 +349,18 @@ func coldCase(rng *gen.Rng, op string, pool []namedPt) (spec string, want []byte
 			}
 		}
 		return fmt.Sprintf("schnorrverify:%x:%x:%x", b32(P.X), msg, sig), []byte{ok}
+	case "prehash", "prehash-related/0", "prehash-related/1", "prehash-related/2", "prehash-related/3", "prehash-related/4", "prehash-related/5", "prehash-related/6", "prehash-related/7", "prehash-related/8":
+		name, msg := prehashName(rng), rng.Bytes(rng.Intn(70))
+		if op != "prehash" {
+			// the first call of a cold sequence: a name one step away from a tag BIP-340 uses
+			k := int(op[len(op)-1] - '0')
+			name = []string{"BIP0340/challenge", "BIP0340/aux", "BIP0340/nonce"}[k%3] + []string{"\x00", "\x00\x00\x00", " "}[k/3]
+		}
+		want := []byte("error")
+		if name != "" && utf8.ValidString(name) {
+			want = oracle.TaggedHash(name, msg)
+		}
+		return fmt.Sprintf("prehash:%x:%x", []byte(name), msg), want
 	case "ecdh":
 		e, _ := keyValue(rng)
 		return fmt.Sprintf("ecdh:%x:%x", b32(d), oracle.EncodeUncompressed(oracle.MulG(e))), b32(oracle.MulG(oracle.MulM(d, e, n)).X)
@@ -444,6 +464,40 @@ func wrapRegisteredHashes() {
 // children are run under; 0 leaves the environment alone.
 var coldProcs = []int{0, 7, 1, 3, 13, 2, 11, 32, 5, 9, 31, 6, 14, 19, 23, 64, 4, 29, 17, 21, 33, 10, 25, 27, 8, 12, 15, 18, 22, 26, 28, 37}
 
+// prehashName: domain separators for PreHashSchnorrMessage - above all names RELATED to the tags
+// BIP-340 itself uses (equal to one, one with trailing NUL / space / a further component, a
+// prefix of one): whatever the library keeps per tag must keep them apart
+func prehashName(rng *gen.Rng) string {
+	internal := []string{"BIP0340/challenge", "BIP0340/aux", "BIP0340/nonce"}
+	t := internal[rng.Intn(3)]
+	switch rng.Intn(12) {
+	case 0:
+		return t
+	case 1:
+		return t + "\x00"
+	case 2:
+		return t + "\x00\x00\x00"
+	case 3:
+		return t + " "
+	case 4:
+		return t[:len(t)-1]
+	case 5:
+		return t + "/x"
+	case 6:
+		return strings.ToLower(t)
+	case 7:
+		return string(rng.Bytes(1 + rng.Intn(40))) // mostly not valid UTF-8
+	case 8:
+		return ""
+	case 9:
+		return strings.Repeat("t", gen.Pick(rng, 31, 32, 33, 55, 56, 64, 65, 200))
+	case 10:
+		return "\x00"
+	default:
+		return fmt.Sprintf("app/%d", rng.Intn(1000))
+	}
+}
+
 // glvOrValue draws a scalar from the GLV-steered or the generic value classes.
 func glvOrValue(rng *gen.Rng) (*big.Int, string) {
 	if rng.Bool() {
@@ -465,9 +519,13 @@ func runColdStart(r *mon.Run, id string, n int, ops ...string) {
 	}
 	r.Each(id+"/cold-start", n, func(w *mon.W, i int) {
 		op := ops[i%len(ops)]
+		seq := (i/len(ops))%3 == 1 && len(ops) > 1
+		if seq && op == "prehash" {
+			op = fmt.Sprintf("prehash-related/%d", []int{0, 3, 1, 6, 2, 4, 5, 7, 8}[(i/len(ops)/3)%9])
+		}
 		spec, want := coldCase(w.Rng, op, pool)
 		wantHex := hex.EncodeToString(want)
-		if (i/len(ops))%3 == 1 && len(ops) > 1 {
+		if seq {
 			// a sequence of two or three different operations (every ordered pair comes up)
 			k := 2 + w.Rng.Intn(2)
 			specs := []string{strings.Fields(spec)[0]}
@@ -563,7 +621,7 @@ var coldConcOps = map[string][]string{
 	"C10": {"ecdh", "pubkey", "decode"},
 	"C11": {"recover", "recoverpoint"},
 	"C12": {"asn1bytes", "parsepub"},
-	"C13": {"schnorrverify", "schnorrpub"},
+	"C13": {"schnorrverify", "schnorrpub", "prehash"},
 	"C14": {"schnorrsign"},
 	"C15": {"h2c"},
 	"C16": {"dsm", "msm", "msmv"},
